@@ -116,6 +116,14 @@ def corpus_case(rng: random.Random, index: int) -> Optional[Dict[str, Any]]:
 
 def run_case(ctx: Any, expected: Expected, case: Dict[str, Any], name: str, what: str) -> Optional[Tuple[Stats, List[Dict[str, Any]]]]:
     """what: 'content' (C13) or 'links' (C19). Returns None when the run was not observable."""
+    if "-n" not in case["args"]:
+        from rpv.model import Model
+        from rpv.oracle.balance import is_valid
+
+        if not all(is_valid(Model(h)) for h in case["hists"].values()):
+            # a directed family produced a history that overdraws an account or overspends its lots: not a valid input
+            ctx.count("generated_invalid")
+            return None
     ws = Workspace(ctx.scratch, name)
     try:
         hists = copy.deepcopy(case["hists"])
